@@ -60,7 +60,8 @@ Definition bound_codes (c : cfg) (replace : bool) (k : str * ebound * ebound * (
 (* ---------------------------------------------------------------- the document-level model (SbmlDoc.v) *)
 Definition cur_env : senv :=
   mkEnv sb_prefix_gene sb_prefix_specie sb_prefix_reaction sb_prefix_group sb_dot
-        sb_lower_bound_id sb_upper_bound_id sb_zero_bound_id sb_minus_inf_id sb_plus_inf_id sb_reader_wide_default.
+        sb_lower_bound_id sb_upper_bound_id sb_zero_bound_id sb_minus_inf_id sb_plus_inf_id sb_reader_wide_default
+        sb_sidmap_genes.
 (* GPRCleaner.visit_Name with the tables regenerated from core/gene.py *)
 Definition cur_clean : str -> str :=
   Escape.unescape_name repl_table esc_prefix_strip (Z.to_nat esc_prefix_striplen).
@@ -168,10 +169,7 @@ Definition doc_codes (k : scase) : list (nat * nat) :=
    end) ++
   match s_written k, s_readback k with
   | Ok d, Some r =>
-      (* a gene in a group: the reader model describes the unpatched reader (fixes/io-sbml-group-gene-member.md);
-         no prediction, the failure itself is reported by the trip monitor as a known finding *)
-      (if existsb (fun g => existsb (fun p => fst p =? 0) (gr_members g)) (sm_groups (s_sm k)) then []
-       else if rres_eqb (m_read c d) r then [] else [(6%nat, 1%nat)]) ++
+      (if rres_eqb (m_read c d) r then [] else [(6%nat, 1%nat)]) ++
       (if sbml_ok to_dec wnum15 cur_clean cur_env c (s_sm k) then
          (if rres_eqb (roundtrip to_dec parse_dec wnum15 cur_clean cur_env c (s_sm k))
                       (Ok (norm to_dec cur_env (s_sm k))) then [] else [(7%nat, 1%nat)]) ++
